@@ -73,7 +73,8 @@ def run_model(cases: list[str], shards: int = 8) -> list:
         return []
     if not DRIVER.exists():
         raise RuntimeError("model driver not built; run ./setup.sh")
-    shards = max(1, min(shards, len(cases) // 200 + 1))
+    total = sum(len(c) for c in cases)
+    shards = max(1, min(len(cases), max(min(shards, len(cases) // 200 + 1), min(14, total // 400_000))))
     chunks = [cases[i::shards] for i in range(shards)]
     procs = []
     for ch in chunks:
